@@ -207,7 +207,7 @@ fn check_message(case: &Case, call: &Call, m: &DsdMessage) -> Result<(), Fail> {
     Ok(())
 }
 
-fn case_writer(bytes: &[u8], _s: &[u8], ctx: &mut Ctx) -> Result<(), Fail> {
+pub fn case_writer(bytes: &[u8], _s: &[u8], ctx: &mut Ctx) -> Result<(), Fail> {
     let mut src = Source::new(bytes);
     let case = decode(&mut src);
     ctx.case(&case);
